@@ -11,6 +11,6 @@ PROPS = {
     'C13': {'modules': ['harness.p_sim']},
     'C11': {'modules': ['harness.h_c11']},
     'C05': {'modules': ['harness.p_sim']},
-    'C07': {'modules': ['harness.p_sim']},
+    'C07': {'modules': ['harness.h_c07', 'harness.p_sim']},
     'C08': {'modules': ['harness.h_c08', 'harness.p_sim']},
 }
